@@ -690,5 +690,93 @@ fn main() {
         tf!(2, Mat2, rm, cm, "row"); tf!(2, Mat2, cm, rm, "col"); tf!(3, Mat3, rm, cm, "row"); tf!(3, Mat3, cm, rm, "col"); tf!(4, Mat4, rm, cm, "row"); tf!(4, Mat4, cm, rm, "col");
         s.sample(json!({"call": "<column_major::Mat3<i64> as num_traits::One>::one()", "want": "identity by fields"}));
     });
+    rep.section("array conversions and conversion programs on elements with drop glue (ownership-tracked, neither Copy nor Clone)",
+        "the search above runs on a Copy symbol, for which a conversion that reads the source and then lets it drop is invisible. Here the 6 matrix types hold ownership-tracked tokens (token i*N+j at (i,j), built by struct literal): every program of length 1..2 (thorough: 1..3) over the 8 steps from_{row,col}_{array,arrays}(m.into_{row,col}_{array,arrays}()) - same name: identity, crossed: transpose - must end with token (i,j) (resp. (j,i) after an odd number of crossings) at (i,j), read back through the public fields, with no token dropped while the result is alive and every token dropped exactly once afterwards; plus each into_* conversion alone (order of the array, tokens alive). non-trivial: all",
+        true, false, |s| {
+        use vx::tok::{self, Tok};
+        use vx::vecs::VecN;
+        let thorough = s.thorough();
+        let maxlen = if thorough { 3 } else { 2 };
+        s.require_classes(&["Mat2<row>", "Mat2<col>", "Mat3<row>", "Mat3<col>", "Mat4<row>", "Mat4<col>", "program with an odd number of crossings", "program with an even number of crossings"]);
+        macro_rules! dg { ($M:ident, $n:expr, $lay:ident, $layname:expr, $lines:ident, $V:ident) => {{
+            const N: usize = $n; const NN: usize = N * N;
+            let name = format!("Mat{}<{}>", N, $layname);
+            type MT = $lay::$M<Tok>;
+            let build = || -> MT {
+                tok::reset();
+                let mut t: Vec<Option<Tok>> = (0..NN).map(|_| Some(Tok::new())).collect();
+                let lines: Vec<$V<Tok>> = (0..N).map(|k| <$V<Tok> as VecN<Tok>>::from_elems((0..N).map(|l| { let (i, j) = if $layname == "row" { (k, l) } else { (l, k) }; t[i * N + j].take().unwrap() }).collect())).collect();
+                $lay::$M { $lines: <$V<$V<Tok>> as VecN<$V<Tok>>>::from_elems(lines) }
+            };
+            let decode = |m: MT| -> (Vec<Vec<u32>>, Vec<Vec<Tok>>) {
+                let lines: Vec<Vec<Tok>> = m.$lines.into_elems().into_iter().map(|l| l.into_elems()).collect();
+                let mut out = vec![vec![0u32; N]; N];
+                for (k, l) in lines.iter().enumerate() { for (x, t) in l.iter().enumerate() { let (i, j) = if $layname == "row" { (k, x) } else { (x, k) }; out[i][j] = t.id; } }
+                (out, lines)
+            };
+            let steps: [(&str, bool, fn(MT) -> MT); 8] = [
+                ("from_row_array(into_row_array)", false, |m| <MT>::from_row_array(m.into_row_array())),
+                ("from_col_array(into_col_array)", false, |m| <MT>::from_col_array(m.into_col_array())),
+                ("from_row_arrays(into_row_arrays)", false, |m| <MT>::from_row_arrays(m.into_row_arrays())),
+                ("from_col_arrays(into_col_arrays)", false, |m| <MT>::from_col_arrays(m.into_col_arrays())),
+                ("from_col_array(into_row_array)", true, |m| <MT>::from_col_array(m.into_row_array())),
+                ("from_row_array(into_col_array)", true, |m| <MT>::from_row_array(m.into_col_array())),
+                ("from_col_arrays(into_row_arrays)", true, |m| <MT>::from_col_arrays(m.into_row_arrays())),
+                ("from_row_arrays(into_col_arrays)", true, |m| <MT>::from_row_arrays(m.into_col_arrays())),
+            ];
+            let mut progs: Vec<Vec<usize>> = vec![vec![]];
+            let mut all: Vec<Vec<usize>> = vec![];
+            for _ in 0..maxlen { let mut nx = vec![]; for p in &progs { for k in 0..8 { let mut q = p.clone(); q.push(k); nx.push(q); } } all.extend(nx.iter().cloned()); progs = nx; }
+            for prog in &all {
+                let label: Vec<&str> = prog.iter().map(|&k| steps[k].0).collect();
+                let site = format!("{}::{}", name, steps[*prog.last().unwrap()].0);
+                let odd = prog.iter().filter(|&&k| steps[k].1).count() % 2 == 1;
+                s.eval(true); s.class(&name); s.class(if odd { "program with an odd number of crossings" } else { "program with an even number of crossings" });
+                let r = catch(|| {
+                    let mut m = build();
+                    for &k in prog { m = (steps[k].2)(m); }
+                    let early = tok::dropped_ids(); let f1 = tok::faults();
+                    let (got, keep) = decode(m);
+                    let alive = tok::dropped_ids().is_empty();
+                    drop(keep);
+                    (early, f1, got, alive, tok::dropped_ids().len(), tok::count(), tok::faults())
+                });
+                match r {
+                    Err(c) => s.violation(&site, "panic", json!({"program": label, "what": format!("{:?}", c)})),
+                    Ok((early, f1, got, alive, dropped, created, f2)) => {
+                        let want: Vec<Vec<u32>> = (0..N).map(|i| (0..N).map(|j| if odd { (j * N + i) as u32 } else { (i * N + j) as u32 }).collect()).collect();
+                        if !early.is_empty() || !alive { s.violation_w(&site, "element-dropped-during-conversion", json!({"program": label, "dropped_while_the_result_was_alive": early}), prog.len() as u64); }
+                        if got != want { s.violation_w(&site, "wrong-element-after-conversion-program", json!({"program": label, "got": got, "want": want}), prog.len() as u64); }
+                        if let Some(f) = f1.into_iter().chain(f2).next() { s.violation_w(&site, "ledger-fault", json!({"program": label, "what": f}), prog.len() as u64); }
+                        if dropped != created || created != NN { s.violation_w(&site, "drop-count-mismatch", json!({"program": label, "dropped": dropped, "created": created, "expected": NN}), prog.len() as u64); }
+                    }
+                }
+            }
+            // each into_* alone: order of the array and tokens alive while it is held
+            let want_rows: Vec<u32> = (0..NN as u32).collect();
+            let want_cols: Vec<u32> = (0..N).flat_map(|j| (0..N).map(move |i| (i * N + j) as u32)).collect();
+            macro_rules! one { ($f:ident, $want:expr, $flat:expr) => {{
+                let site = format!("{}::{}", name, stringify!($f)); s.eval(true);
+                match catch(|| { let a = build().$f(); let early = tok::dropped_ids(); let g: Vec<u32> = $flat(&a); drop(a); (early, g, tok::dropped_ids().len(), tok::faults()) }) {
+                    Err(c) => s.violation(&site, "panic", json!({"what": format!("{:?}", c)})),
+                    Ok((early, g, dropped, f)) => {
+                        if !early.is_empty() { s.violation(&site, "element-dropped-during-conversion", json!({"dropped_while_the_array_was_alive": early})); }
+                        if g != $want { s.violation(&site, "wrong-element-after-conversion-program", json!({"got": g, "want": $want})); }
+                        if dropped != NN { s.violation(&site, "drop-count-mismatch", json!({"dropped": dropped, "expected": NN})); }
+                        if let Some(f) = f.into_iter().next() { s.violation(&site, "ledger-fault", json!({"what": f})); }
+                    }
+                }
+            }} }
+            one!(into_row_array, want_rows, |a: &[Tok; NN]| a.iter().map(|t| t.id).collect());
+            one!(into_col_array, want_cols, |a: &[Tok; NN]| a.iter().map(|t| t.id).collect());
+            one!(into_row_arrays, want_rows, |a: &[[Tok; N]; N]| a.iter().flatten().map(|t| t.id).collect());
+            one!(into_col_arrays, want_cols, |a: &[[Tok; N]; N]| a.iter().flatten().map(|t| t.id).collect());
+            if N == 3 && $layname == "row" { s.sample(json!({"type": name, "programs": all.len(), "example": [steps[6].0, steps[3].0], "expect": "token (j,i) at (i,j), nothing dropped before the result is"})); }
+        }} }
+        dg!(Mat2, 2, rm, "row", rows, Vec2); dg!(Mat2, 2, cm, "col", cols, Vec2);
+        dg!(Mat3, 3, rm, "row", rows, Vec3); dg!(Mat3, 3, cm, "col", cols, Vec3);
+        dg!(Mat4, 4, rm, "row", rows, Vec4); dg!(Mat4, 4, cm, "col", cols, Vec4);
+        s.meta("programs_per_type", json!(if thorough { 8 + 64 + 512 } else { 8 + 64 }));
+    });
     std::process::exit(rep.finish_with(lk));
 }
